@@ -364,10 +364,10 @@ Proof.
   destruct H as (Icr & Isi & Itl & Itd & Ifr & Icl & Iseen & Ikl & Iko & Irm).
   specialize (Ifr Eo). unfold front_ok in Ifr.
   destruct (c_pipe c) as [|f tl0] eqn:Ep.
-  { destruct Ifr as [X _]. discriminate. }
+  { destruct Ifr as [X _]. congruence. }
   cbn [tl] in Itl.
-  destruct Ifr as [(_ & X & _) | (Hw & t' & ch' & Htk & Hwr & Hout)]; [discriminate|].
-  inversion Hwr; subst ch'. clear Hwr.
+  destruct Ifr as [(_ & X & _) | (Hw & t' & ch' & Htk & Hwr & Hout)]; [congruence|].
+  assert (ch' = ch) by congruence. subst ch'. clear Hwr.
   inversion Isi as [|? ? Hsf Hsr]; subst. inversion Itd as [|? ? Htf Htr]; subst.
   destruct (st_todo f) as [|c2 more] eqn:Et.
   - (* STREAM_COMPLETE *)
@@ -383,7 +383,7 @@ Proof.
     split; [|assumption].
     intros Hk. apply Forall_app. split; [apply Iko; exact Eo|]. constructor; [exact Hk| constructor].
   - (* STREAM_NONE: pullData *)
-    unfold Inv, front_ok, closed_ok, done_bytes; projs. rewrite Eo.
+    unfold Inv, front_ok, closed_ok, done_bytes; projs.
     split; [assumption|]. split.
     { constructor; [|assumption]. unfold si in *; projs. rewrite Hsf, Et. reflexivity. }
     split; [assumption|]. split.
